@@ -259,6 +259,13 @@ func contractNames(ct *spec.FuncContract, fn *ssa.Function, sig *types.Signature
 	return
 }
 
+func resultAlias(i, n int) string {
+	if n == 1 {
+		return "result"
+	}
+	return fmt.Sprintf("result%d", i)
+}
+
 func (c *fctx) paramTypes(fn *ssa.Function, sig *types.Signature, invoke bool, recvT types.Type) []types.Type {
 	var ts []types.Type
 	if fn != nil {
@@ -324,7 +331,7 @@ func (c *fctx) applyContract(fr *frame, key string, ct *spec.FuncContract, fn *s
 		c.addObl(&Obligation{Name: fr.prefix + "call-requires:" + short + "#" + lbl + "@" + c.P.SrcLine(pos), Kind: "requires", Guard: reach, Goal: g.t, Pos: c.pos(pos), SrcLine: c.P.SrcLine(pos), Clause: r.Src})
 	}
 	// recursion: the measure must decrease (lexicographically) and be bounded below
-	if fn != nil && fn == c.fn && len(ct.Decr) > 0 && len(c.fnDecr0) == len(ct.Decr) {
+	if fn != nil && fn == c.fn && len(ct.Decr) > 0 && len(c.fnDecr0) == len(ct.Decr) && !c.noRecCheck {
 		var now []string
 		for _, d := range ct.Decr {
 			now = append(now, e.tr(d).t)
@@ -339,7 +346,7 @@ func (c *fctx) applyContract(fr *frame, key string, ct *spec.FuncContract, fn *s
 			alts = append(alts, and(cs...))
 		}
 		c.addObl(&Obligation{Name: fr.prefix + "recursion/decreases@" + c.P.SrcLine(pos), Kind: "decreases", Guard: reach, Goal: or(alts...), Pos: c.pos(pos), SrcLine: c.P.SrcLine(pos)})
-	} else if fn != nil && fn == c.fn && len(ct.Decr) == 0 {
+	} else if fn != nil && fn == c.fn && len(ct.Decr) == 0 && !c.noRecCheck {
 		c.errorf("%s: recursive call without a decreases clause", fn)
 	}
 	// the callee calls some of its function-valued arguments (with arbitrary arguments)
@@ -365,9 +372,19 @@ func (c *fctx) applyContract(fr *frame, key string, ct *spec.FuncContract, fn *s
 			c.inline(fr, av.clo.fn, cargs, av.clo.bindings, st, reach, pos, av.clo.fn.Signature.Results(), c.P.ContractFor(av.clo.fn))
 		}
 	}
+	// the callee calls a method of one of its interface-valued arguments any number of times
+	var streams []*streamSite
+	for _, rp := range ct.Repeats {
+		if ss := c.streamSite(fr, ct, key, rp, pnames, args, st, reach, pos); ss != nil {
+			streams = append(streams, ss)
+		}
+	}
 	// frame: havoc what the callee may assign
 	preAlloc := c.region(st, "alloc", "(Array Int Bool)")
 	c.havocAssigns(fr, ct, e, st, reach, pos)
+	for _, ss := range streams {
+		c.streamHavoc(fr, ss, st, reach, pos)
+	}
 	// the callee may allocate
 	c.loopCheck(fr, "alloc")
 	na := c.fresh("H.alloc", "(Array Int Bool)")
@@ -388,10 +405,21 @@ func (c *fctx) applyContract(fr *frame, key string, ct *spec.FuncContract, fn *s
 		if i < len(rnames) {
 			e.vars[rnames[i]] = sval{t: v, sort: srt, gt: t}
 		}
+		// positional aliases are always available (named results keep their names too)
+		if _, taken := e.vars[resultAlias(i, rs.Len())]; !taken {
+			e.vars[resultAlias(i, rs.Len())] = sval{t: v, sort: srt, gt: t}
+		}
 	}
 	for _, en := range ct.Ensures {
 		g := e.tr(en.E)
 		c.assume(implies(reach, g.t))
+	}
+	for _, en := range ct.Defines {
+		g := e.tr(en.E)
+		c.assume(implies(reach, g.t))
+	}
+	for _, ss := range streams {
+		c.streamAssume(ss, st, pre, reach)
 	}
 	for _, en := range ct.Assumes {
 		g := e.tr(en.E)
@@ -681,4 +709,314 @@ func (c *fctx) doCopy(fr *frame, cm *ssa.CallCommon, reach string, st *state, po
 	c.assume(fmt.Sprintf("(forall ((x!p Int)) (! (=> (or (< x!p (soff %s)) (>= x!p (+ (soff %s) %s))) (= (select %s x!p) (select (select %s (sbase %s)) x!p))) :pattern ((select %s x!p))))", dst, dst, cnt, arr, h, dst, arr))
 	c.setRegion(st, key, srt, fmt.Sprintf("(ite (= (sbase %s) 0) %s (store %s (sbase %s) %s))", dst, h, h, dst, arr))
 	return val{t: cnt}
+}
+
+
+// ---------------------------------------------------------------- stream summaries (repeats / stream / implements)
+
+// streamSite: at a call of an extern that `repeats x.M`, the argument x was made from a value of an in-repo type
+// whose method M carries `stream` invariants.
+type streamSite struct {
+	m    *ssa.Function
+	mct  *spec.FuncContract // contract of the in-repo method
+	ict  *spec.FuncContract // interface-method contract it implements (may be nil)
+	args []val              // receiver, then fresh parameters
+	self val                // the interface value
+	menv *env
+	ienv *env
+}
+
+// methodOf finds the method named name of the dynamic type t (in-repo types only).
+func (c *fctx) methodOf(t types.Type, name string) *ssa.Function {
+	ms := c.P.SSA.MethodSets.MethodSet(t)
+	for i := 0; i < ms.Len(); i++ {
+		sel := ms.At(i)
+		if sel.Obj().Name() == name {
+			f := c.P.SSA.MethodValue(sel)
+			if f != nil && f.Pkg != nil && strings.HasPrefix(f.Pkg.Pkg.Path(), ModulePath) && len(f.Blocks) > 0 {
+				return f
+			}
+			return nil
+		}
+	}
+	return nil
+}
+
+// freshParams returns fresh symbolic values for the non-receiver parameters of m (buffers owned by the caller of m:
+// slices are backed by memory that is not allocated in the current state).
+func (c *fctx) freshParams(m *ssa.Function, st *state, reach string) []val {
+	var out []val
+	for _, prm := range m.Params[1:] {
+		if _, isSl := types.Unalias(prm.Type()).Underlying().(*types.Slice); isSl {
+			// a buffer of the caller's own: freshly allocated, any length
+			base := c.allocate(st, reach, "buf")
+			n := c.fresh("sp.len", "Int")
+			c.assume(fmt.Sprintf("(and (<= 0 %s) (<= %s 4611686018427387904))", n, n))
+			out = append(out, val{t: fmt.Sprintf("(mkslice %s 0 %s %s)", base, n, n)})
+			continue
+		}
+		v := c.fresh("sp."+prm.Name(), c.S.SortOf(prm.Type()))
+		c.assumeFacts(reach, v, prm.Type(), st)
+		out = append(out, val{t: v})
+	}
+	return out
+}
+
+func (c *fctx) bindEnv(ct *spec.FuncContract, fn *ssa.Function, sig *types.Signature, invoke bool, args []val, st, old *state) *env {
+	var pkg *types.Package
+	if fn != nil && fn.Pkg != nil {
+		pkg = fn.Pkg.Pkg
+	}
+	var recvT types.Type
+	if invoke {
+		recvT = types.NewInterfaceType(nil, nil)
+	}
+	pnames, _ := contractNames(ct, fn, sig, invoke)
+	ptypes := c.paramTypes(fn, sig, invoke, recvT)
+	e := c.specEnv(ct, pkg, st, old)
+	for i, n := range pnames {
+		if i >= len(args) {
+			break
+		}
+		var gt types.Type
+		if i < len(ptypes) {
+			gt = ptypes[i]
+		}
+		srt := "Iface"
+		if gt != nil {
+			srt = c.S.SortOf(gt)
+		}
+		e.vars[n] = sval{t: c.termOf(args[i], "argument "+n), sort: srt, gt: gt}
+	}
+	return e
+}
+
+func (c *fctx) streamSite(fr *frame, ct *spec.FuncContract, key, rp string, pnames []string, args []val, st *state, reach string, pos token.Pos) *streamSite {
+	parts := strings.SplitN(rp, ".", 2)
+	if len(parts) != 2 {
+		c.errorf("%s: repeats clause %q: expected param.Method", key, rp)
+		return nil
+	}
+	idx := -1
+	for i, n := range pnames {
+		if n == parts[0] {
+			idx = i
+		}
+	}
+	if idx < 0 {
+		c.errorf("%s: repeats clause %q names no parameter", key, rp)
+		return nil
+	}
+	av := args[idx]
+	if av.dynT == nil || av.dynV == nil {
+		// unknown dynamic type: the callee's contract speaks about the ghost history of the interface value only
+		c.used["assumed: an interface value of unknown dynamic type passed to "+shortFn(key)+" is observed by the caller only through its ghost history state"] = true
+		return nil
+	}
+	m := c.methodOf(av.dynT, parts[1])
+	if m == nil {
+		return nil // dependency type (bytes.Reader, bufio.Reader, ...): ghost history of the interface value only
+	}
+	mct := c.P.ContractFor(m)
+	if mct == nil || len(mct.Stream) == 0 {
+		c.errorf("%s: %s is called repeatedly by %s but has no stream invariant", fr.fn, m, shortFn(key))
+		return nil
+	}
+	ss := &streamSite{m: m, mct: mct, self: av}
+	if mct.Implements != "" {
+		ss.ict = c.P.Contracts[mct.Implements]
+	}
+	ss.args = append([]val{*av.dynV}, c.freshParams(m, st, reach)...)
+	pre := st.clone()
+	ss.menv = c.bindEnv(mct, m, m.Signature, false, ss.args, st, pre)
+	c.used[contractLabel(mct, m.String())+" (stream invariant)"] = true
+	// the method's precondition must hold when the callee starts (its stability across calls is an obligation of the method)
+	short := shortFn(m.String())
+	for i, r := range mct.Requires {
+		g := ss.menv.tr(r.E)
+		lbl := fmt.Sprint(i)
+		if r.Label != "" {
+			lbl = r.Label
+		}
+		c.addObl(&Obligation{Name: fr.prefix + "call-requires:" + short + "#" + lbl + "(repeated)@" + c.P.SrcLine(pos), Kind: "requires", Guard: reach, Goal: g.t, Pos: c.pos(pos), SrcLine: c.P.SrcLine(pos), Clause: r.Src})
+	}
+	if ss.ict != nil {
+		iargs := append([]val{av}, ss.args[1:]...)
+		sig := m.Signature
+		ss.ienv = c.bindEnv(ss.ict, nil, sig, true, iargs, st, pre)
+	}
+	return ss
+}
+
+func (c *fctx) streamHavoc(fr *frame, ss *streamSite, st *state, reach string, pos token.Pos) {
+	ss.menv.st = st
+	c.havocAssigns(fr, ss.mct, ss.menv, st, reach, pos)
+	if ss.ienv != nil {
+		ss.ienv.st = st
+		c.havocAssigns(fr, c.ghostOnly(ss.ict), ss.ienv, st, reach, pos)
+	}
+}
+
+func (c *fctx) streamAssume(ss *streamSite, st, pre *state, reach string) {
+	ss.menv.st, ss.menv.old = st, pre
+	for _, cl := range ss.mct.Stream {
+		g := ss.menv.tr(cl.E)
+		c.assume(implies(reach, g.t))
+	}
+}
+
+// verifyStream generates, for a method with `implements` / `stream` clauses:
+//   refines#i@retK   every plain post-condition of the interface-method contract holds at every return
+//   stream#l/base    each stream invariant holds reflexively
+//   stream#l/step    each stream invariant is preserved by one more call (from any state reachable by calls)
+//   stream>call-requires...  the method's precondition is stable under the invariants
+func (c *fctx) verifyStream(fr *frame, ct *spec.FuncContract, e *env, entry *state, rets []retInfo) {
+	fn := c.fn
+	var ict *spec.FuncContract
+	if ct.Implements != "" {
+		ict = c.P.Contracts[ct.Implements]
+		if ict == nil {
+			c.errorf("%s: implements %s: no such interface-method contract", fn, ct.Implements)
+			return
+		}
+	}
+	if ict == nil && len(ct.Stream) > 0 {
+		c.errorf("%s: stream invariants need an implements clause", fn)
+		return
+	}
+	if ict == nil {
+		return
+	}
+	recv := fr.vals[fn.Params[0]]
+	b := c.S.Box(fn.Params[0].Type())
+	self := val{t: fmt.Sprintf("(%s %s)", b.Box, c.termOf(recv, "receiver"))}
+	// (a) refinement of the ghost-free interface post-conditions
+	for ri, r := range rets {
+		iargs := []val{self}
+		for _, prm := range fn.Params[1:] {
+			iargs = append(iargs, fr.vals[prm])
+		}
+		ie := c.bindEnv(ict, nil, fn.Signature, true, iargs, r.st, entry)
+		_, rnames := contractNames(ict, nil, fn.Signature, true)
+		rs := fn.Signature.Results()
+		for i := 0; i < rs.Len() && i < len(r.results) && i < len(rnames); i++ {
+			t := rs.At(i).Type()
+			ie.vars[rnames[i]] = sval{t: c.termOf(r.results[i], "result"), sort: c.S.SortOf(t), gt: t}
+		}
+		for i, en := range ict.Ensures {
+			g := ie.tr(en.E)
+			lbl := fmt.Sprint(i)
+			if en.Label != "" {
+				lbl = en.Label
+			}
+			c.addObl(&Obligation{Name: fmt.Sprintf("refines#%s@ret%d", lbl, ri), Kind: "ensures", Guard: r.cond, Goal: g.t, Clause: en.Src, Pos: c.pos(r.pos), SrcLine: c.P.SrcLine(r.pos), Tags: streamTags(ct)})
+		}
+	}
+	if len(ct.Stream) == 0 {
+		return
+	}
+	c.used["assumed: ghost history state of an interface value evolves as the `defines` clauses of "+ct.Implements+" say (history variables)"] = true
+	saved := c.modeNoAssigns
+	c.modeNoAssigns, c.noRecCheck = true, true
+	defer func() { c.modeNoAssigns, c.noRecCheck = saved, false }()
+	sfr := &frame{fn: fn, vals: fr.vals, prefix: "stream>", contract: ct}
+	// base
+	be := *e
+	be.st, be.old = entry, entry
+	for i, cl := range ct.Stream {
+		g := be.tr(cl.E)
+		c.addObl(&Obligation{Name: "stream#" + clauseLabel(cl, i) + "/base", Kind: "invariant-established", Guard: "true", Goal: g.t, Clause: cl.Src, Tags: cl.Tags})
+	}
+	// s1: any state reached from entry by calls of this method
+	s1 := entry.clone()
+	args0 := []val{recv}
+	for _, prm := range fn.Params[1:] {
+		args0 = append(args0, fr.vals[prm])
+	}
+	iargs0 := append([]val{self}, args0[1:]...)
+	me := c.bindEnv(ct, fn, fn.Signature, false, args0, s1, entry)
+	c.havocAssigns(sfr, ct, me, s1, "true", fn.Pos())
+	ie := c.bindEnv(ict, nil, fn.Signature, true, iargs0, s1, entry)
+	c.havocAssigns(sfr, c.ghostOnly(ict), ie, s1, "true", fn.Pos())
+	me.st, me.old = s1, entry
+	for _, cl := range ct.Stream {
+		c.assume(me.tr(cl.E).t)
+	}
+	// one more call, with a buffer of the caller's
+	args1 := append([]val{recv}, c.freshParams(fn, s1, "true")...)
+	s1pre := s1.clone()
+	res := c.applyContract(sfr, fn.String(), ct, fn, fn.Signature, false, args1, s1, "true", fn.Pos(), fn.Signature.Results())
+	// the ghost history of the interface value, as defined by the interface-method contract
+	iargs1 := append([]val{self}, args1[1:]...)
+	ie2 := c.bindEnv(ict, nil, fn.Signature, true, iargs1, s1, s1pre)
+	c.havocAssigns(sfr, c.ghostOnly(ict), ie2, s1, "true", fn.Pos())
+	ie2.st = s1
+	_, irn := contractNames(ict, nil, fn.Signature, true)
+	rs := fn.Signature.Results()
+	var rvals []val
+	if rs.Len() == 1 {
+		rvals = []val{res}
+	} else {
+		rvals = res.tup
+	}
+	for i := 0; i < rs.Len() && i < len(rvals) && i < len(irn); i++ {
+		t := rs.At(i).Type()
+		ie2.vars[irn[i]] = sval{t: c.termOf(rvals[i], "result"), sort: c.S.SortOf(t), gt: t}
+	}
+	for _, en := range ict.Ensures {
+		c.assume(ie2.tr(en.E).t)
+	}
+	for _, en := range ict.Defines {
+		c.assume(ie2.tr(en.E).t)
+	}
+	c.addObl(&Obligation{Name: "stream/vacuity:step-reachable", Kind: "vacuity", Guard: "true", Goal: "false", ExpectSat: true})
+	se := c.bindEnv(ct, fn, fn.Signature, false, args0, s1, entry)
+	for i, cl := range ct.Stream {
+		g := se.tr(cl.E)
+		c.addObl(&Obligation{Name: "stream#" + clauseLabel(cl, i) + "/step", Kind: "invariant-preserved", Guard: "true", Goal: g.t, Clause: cl.Src, Tags: cl.Tags})
+	}
+}
+
+func clauseLabel(cl spec.Clause, i int) string {
+	if cl.Label != "" {
+		return cl.Label
+	}
+	return fmt.Sprint(i)
+}
+
+func streamTags(ct *spec.FuncContract) []string {
+	seen := map[string]bool{}
+	var out []string
+	for _, cl := range ct.Stream {
+		for _, t := range cl.Tags {
+			if !seen[t] {
+				seen[t] = true
+				out = append(out, t)
+			}
+		}
+	}
+	return out
+}
+
+// ghostOnly restricts a contract's frame to its ghost-state locations.
+func (c *fctx) ghostOnly(ct *spec.FuncContract) *spec.FuncContract {
+	n := *ct
+	if ct.Assigns == nil || ct.Assigns.Any || ct.Assigns.Nothing {
+		return &n
+	}
+	as := &spec.AssignsSpec{Tags: ct.Assigns.Tags}
+	for _, loc := range ct.Assigns.Locs {
+		if cl, ok := loc.(*spec.Call); ok {
+			if id, ok := cl.Fun.(*spec.Ident); ok {
+				if pf := c.P.Pures[id.Name]; pf != nil && pf.State {
+					as.Locs = append(as.Locs, loc)
+				}
+			}
+		}
+	}
+	if len(as.Locs) == 0 {
+		as.Nothing = true
+	}
+	n.Assigns = as
+	return &n
 }
